@@ -396,6 +396,9 @@ def oracle(run, focus, sc, ar, cj):
                             % (ti, period, deferred, t0, got, want[:len(got)]), cj)
             if any(b - a < period for a, b in zip(got, got[1:])):
                 run.violate("C10/period-too-short", "timed source %d (period %d) posted at %s" % (ti, period, got), cj)
+        if not total and (not t["flag"] or ar.finished.get("timer%d" % ti)):
+            run.violate("C10/forever-source-ended", "timed source %d (period %d, times 0 / None: every period, for ever) was not cancelled and has cleared its "
+                        "run flag after %d post(s)" % (ti, period, len(got)), cj)
         if ar.outcome == "quiescent" and total and len(got) != total:
             run.violate("C10/wrong-count", "timed source %d posted %d times, times=%d (all threads finished)" % (ti, len(got), total), cj)
         if total and len(got) > total:
